@@ -262,3 +262,119 @@ package kcache
   ensures [keys-distinct] (forall ((j1 Int) (j2 Int)) (=> (and (<= 0 j1) (< j1 j2) (< j2 (slen result)))
         (not (= (keyOf (select (sarr result) j1)) (keyOf (select (sarr result) j2))))))
 @*/
+
+/*@ iface kcache.CacheController.Ready
+  theory actors
+  ensures (and (= result (sub-ready $recv)) (not (= result vnil)))
+@*/
+/*@ iface kcache.CacheController.Cache
+  theory actors
+  ensures (and (= result (sub-cache $recv)) (not (= result vnil)))
+@*/
+/*@ iface kcache.Subscription.Events
+  theory actors
+  ensures (and (= result (sub-events $recv)) (not (= result vnil)))
+@*/
+/*@ iface kcache.Subscription.Done
+  theory actors
+  ensures (and (= result (sub-done $recv)) (not (= result vnil)))
+@*/
+/*@ iface kcache.Subscription.Close
+@*/
+/*@ iface kcache.Subscription.Error
+@*/
+/*@ iface kcache.CacheReader.List
+@*/
+/*@ iface kcache.cache.sync
+@*/
+/*@ iface kcache.cache.update
+@*/
+/*@ iface kcache.cache.refilter
+@*/
+
+/*@ func (*kcache.filterSubscription).distributeEvents
+  props C10
+  modifies sent(s.outch) full(s.outch)
+  requires (and (not (= {s} vnil)) (not (= {s.outch} vnil)) (not (= {s.log} vnil)) (not {closed(s.outch)}))
+  loop 1 inv [range] (and (<= 0 (+ {rangeindex} 1)) (<= (+ {rangeindex} 1) (slen {events})) (not {closed(s.outch)}))
+@*/
+
+/*@ neverclosed kcache.filterSubscription.refilterch
+@*/
+/*@ chaninv kcache.filterSubscription.refilterch
+  requires (not (= $val vnil))
+@*/
+
+/*@ func (*kcache.filterSubscription).Refilter
+  props C06 C12
+  theory actors
+  requires [valid-s] (and (not (= {s} vnil)) (not (= {s.refilterch} vnil)) (not (= {s.lc} vnil)) (not {closed(s.refilterch)}))
+  requires [filter-nonnil] (not (= {filter} vnil))
+@*/
+
+/*@ func (*kcache.filterSubscription).run
+  props C08 C06 C07 C11
+  theory actors filters
+  requires [valid-s] (and (not (= {s} vnil)) (not (= {s.parent} vnil)) (not (= {s.cache} vnil)) (not (= {s.lc} vnil))
+                        (not (= {s.log} vnil)) (not (= {s.readych} vnil)) (not (= {s.refilterch} vnil)) (not (= {s.outch} vnil))
+                        (not (= {s.filter} vnil)))
+  requires [channels-open] (and (not {closed(s.readych)}) (not {closed(s.outch)}) (not (= {s.readych} {s.outch})))
+  requires [deferred-starts-rejecting-everything] (=> {s.deferReady} (rejectsAll {s.filter}))
+  modifies s.filter
+  ghost parentReadySeen : Bool := false
+  ghost filterSupplied : Bool := false
+  ghost cacheTouched : Bool := false
+  ghost synced : Bool := false
+  ghost cacheFilter : V := {s.filter}
+  ghost lc : Int := 0
+  ghost ndist : Int := 0
+  ghost lastList : (Slice V) := {list@1}
+  ghost listAfterReady : Bool := false
+  ghost lastEvt : V := vnil
+  ghost lastEvents : (Slice V) := {list@1}
+  ghost lastEventsFresh : Bool := false
+  ghost isNewG : Bool := false
+
+  at recv(preadych) set parentReadySeen := true
+  at recv() set listAfterReady := false
+  at recv() set lastEventsFresh := false
+  at recv(Events) set lastEvt := $val
+  at call(FiltersEqual) assert [compares-current-filter] (= $0 {s.filter})
+  at call(FiltersEqual) set filterSupplied := true
+  at call(FiltersEqual).after set isNewG := (not $result)
+  at call(List).after set lastList := $result0
+  at call(List).after set listAfterReady := (and parentReadySeen (= $result1 vnil))
+  at call(sync) set cacheTouched := true
+  at call(sync).after set synced := (ite (= $result1 vnil) (and (= $0 lastList) listAfterReady) synced)
+  at call(refilter) assert [only-for-a-new-filter] isNewG
+  at call(refilter) assert [list-read-in-this-handler-once-parent-ready] (=> (= {preadych} vnil) (and (= $0 lastList) listAfterReady))
+  at call(refilter) set cacheTouched := true
+  at call(refilter).after set synced := (ite (= $result1 vnil) (and (= $0 lastList) listAfterReady) synced)
+  at call(refilter).after set cacheFilter := (ite (= $result1 vnil) $1 cacheFilter)
+  at call(refilter).after set lastEvents := $result0
+  at call(refilter).after set lastEventsFresh := (= $result1 vnil)
+  at call(update) assert [events-applied-only-when-ready] {ready}
+  at call(update) assert [parent-event-passed-unmodified] (= $0 lastEvt)
+  at call(update) set cacheTouched := true
+  at call(update).after set lastEvents := $result0
+  at call(update).after set lastEventsFresh := (= $result1 vnil)
+  at call(distributeEvents) assert [nothing-published-before-ready] {closed(s.readych)}
+  at call(distributeEvents) assert [publishes-exactly-the-events-of-this-mutation] (and (= $1 lastEvents) lastEventsFresh)
+  at call(distributeEvents) set ndist := (+ ndist 1)
+  at call(ShutdownInitiated) assert [shutdown-initiated-once] (= lc 0)
+  at call(ShutdownInitiated) set lc := 1
+  at close(s.readych) assert [parent-ready-observed] (= {preadych} vnil)
+  at close(s.readych) assert [filter-supplied-if-deferred] (=> {s.deferReady} filterSupplied)
+  at close(s.readych) assert [own-cache-holds-filtered-parent-content] (or synced (and (not cacheTouched) (rejectsAll {s.filter})))
+  at close(s.outch) assert [after-the-loop] (= lc 1)
+
+  loop 1 inv [I1-not-ready-while-waiting-for-parent] (=> (not (= {preadych} vnil)) (not {ready}))
+  loop 1 inv [I1b-preadych] (and (or (= {preadych} vnil) (= {preadych} (sub-ready {s.parent}))) (= parentReadySeen (= {preadych} vnil)))
+  loop 1 inv [I2-ready-iff-readych-closed] (= {ready} {closed(s.readych)})
+  loop 1 inv [I3-nothing-published-before-ready] (=> (not {ready}) (= ndist 0))
+  loop 1 inv [I4-cache-filter-is-current-filter] (and (= cacheFilter {s.filter}) (not (= {s.filter} vnil)))
+  loop 1 inv [I5-deferred-waiting] (=> (and (= {preadych} vnil) (not {ready})) (and {s.deferReady} (not {pending})))
+  loop 1 inv [I5b-untouched-until-pending-or-ready] (=> (and (not {pending}) (not {ready})) (and (not cacheTouched) (= {s.filter} (old {s.filter}))))
+  loop 1 inv [I6-pending-implies-filter-supplied] (=> {pending} filterSupplied)
+  loop 1 inv [I7-lifecycle-running] (and (= lc 0) (not {closed(s.outch)}))
+@*/
